@@ -201,7 +201,13 @@ fn general_list(o: PatOpts) -> BoxedStrategy<PatList> {
 fn shaped_list() -> BoxedStrategy<PatList> {
     let tail = vec(any::<u8>(), 0..=6);
     prop_oneof![
-        3 => vec(any::<u8>(), 1..=12).prop_map(PatList::Single),
+        3 => prop_oneof![
+            12 => vec(any::<u8>(), 1..=12),
+            3 => vec(any::<u8>(), 13..=300),
+            1 => vec(any::<u8>(), 1020..=1030),
+            1 => vec(any::<u8>(), 1031..=1600),
+        ]
+        .prop_map(PatList::Single),
         4 => (vec(any::<u8>(), 1..=3), vec((any::<u8>(), tail.clone()), 1..=8))
             .prop_map(|(firsts, tails)| PatList::StartBytes { firsts, tails }),
         6 => (
